@@ -19,6 +19,7 @@ import (
 	"strings"
 	"sync"
 	"sync/atomic"
+	"testing/fstest"
 	"time"
 
 	"github.com/traefik/yaegi/interp"
@@ -43,41 +44,69 @@ func init() {
 // ---------------------------------------------------------------- jobs and results (parent <-> worker)
 
 type c09job struct {
-	ID     int      `json:"id"`
-	Kind   string   `json:"kind"` // park | expired | revival | stale | hist
-	Src    string   `json:"src"`
-	Pre    []string `json:"pre,omitempty"`    // earlier evaluations (EvalWithContext, background)
-	Post   string   `json:"post,omitempty"`   // evaluated by the host between the cancel and the release
-	K      int      `json:"k"`                // park before operation k (0 = cancel when nothing moves any more)
-	Procs  int      `json:"procs,omitempty"`  // GOMAXPROCS for this job (0 = leave)
-	Single bool     `json:"single,omitempty"` // one interpreted goroutine: it cannot finish while it is parked
-	Hist   []c10ev  `json:"hist,omitempty"`
+	ID     int               `json:"id"`
+	Kind   string            `json:"kind"` // park | expired | revival | stale | hist
+	Src    string            `json:"src"`
+	Pre    []c09step         `json:"pre,omitempty"`     // earlier evaluations on the same interpreter
+	Posts  []c09step         `json:"posts,omitempty"`   // evaluations by the host between the cancel and the release
+	ParkIn string            `json:"park_in,omitempty"` // "" = in the step hook before operation k; "native" = inside the k-th call of host.Tick
+	Files  map[string]string `json:"files,omitempty"`   // source files visible to the interpreter (GOPATH "." on a MapFS)
+	K      int               `json:"k"`                 // park before operation k (0 = cancel when nothing moves any more)
+	Procs  int               `json:"procs,omitempty"`   // GOMAXPROCS for this job (0 = leave)
+	Single bool              `json:"single,omitempty"`  // one interpreted goroutine: it cannot finish while it is parked
+	Hist   []c10ev           `json:"hist,omitempty"`
+}
+
+// one evaluation on the interpreter under test
+type c09step struct {
+	How string `json:"how"` // evalctx (EvalWithContext, background) | eval | evalpath | import
+	Src string `json:"src"` // source, path, or import path
+}
+
+func c09doStep(ip *interp.Interpreter, st c09step) error {
+	var err error
+	switch st.How {
+	case "evalctx":
+		_, err = ip.EvalWithContext(context.Background(), st.Src)
+	case "eval":
+		_, err = ip.Eval(st.Src)
+	case "evalpath":
+		_, err = ip.EvalPath(st.Src)
+	case "import":
+		_, err = ip.Eval("import \"" + st.Src + "\"")
+	default:
+		err = fmt.Errorf("unknown step %q", st.How)
+	}
+	return err
 }
 
 type c09res struct {
-	ID          int      `json:"id"`
-	Err         string   `json:"err,omitempty"` // harness-level failure (compile error of a template, ...)
-	Completed   bool     `json:"completed"`     // the program ended before operation k
-	Stalled     bool     `json:"stalled"`       // cancelled because nothing moved any more
-	Ret         bool     `json:"ret"`           // EvalWithContext returned the context's error
-	RetErr      string   `json:"ret_err,omitempty"`
-	LatencyMs   float64  `json:"latency_ms"`
-	ExitMs      float64  `json:"exit_ms"`
-	WallMs      float64  `json:"wall_ms"`
-	TotalOps    int      `json:"total_ops"`
-	TicksBefore []int    `json:"ticks_before"`
-	TicksAfter  []int    `json:"ticks_after"`
-	MaxOpsAfter int      `json:"max_ops_after"`
-	OpsAfter    int      `json:"ops_after"`
-	Parked      int      `json:"parked"`
-	Leftover    int      `json:"leftover"`
-	HostBlocked int      `json:"host_blocked"`
-	LeftStacks  string   `json:"left_stacks,omitempty"`
-	Skipped     bool     `json:"skipped,omitempty"` // not run: the worker slice had already produced many run-aways
-	Runaway     bool     `json:"runaway,omitempty"` // interpreted goroutines kept running after the cancellation; the worker is replaced
-	Slow        string   `json:"slow,omitempty"`    // latency-only remarks (never an alarm below the large bound)
-	Uses        []c10use `json:"uses,omitempty"`
-	HistEvents  []c10ev  `json:"hist_events,omitempty"` // history as executed (expired contexts resolved)
+	ID           int      `json:"id"`
+	Err          string   `json:"err,omitempty"` // harness-level failure (compile error of a template, ...)
+	Completed    bool     `json:"completed"`     // the program ended before operation k
+	Stalled      bool     `json:"stalled"`       // cancelled because nothing moved any more
+	Ret          bool     `json:"ret"`           // EvalWithContext returned the context's error
+	RetErr       string   `json:"ret_err,omitempty"`
+	LatencyMs    float64  `json:"latency_ms"`
+	ExitMs       float64  `json:"exit_ms"`
+	WallMs       float64  `json:"wall_ms"`
+	TotalOps     int      `json:"total_ops"`
+	TicksBefore  []int    `json:"ticks_before"`
+	TicksAfter   []int    `json:"ticks_after"`
+	MaxOpsAfter  int      `json:"max_ops_after"`
+	OthersMaxOps int      `json:"others_max_ops_after"` // the same without the evaluation's own goroutine
+	OthersTicks  []int    `json:"others_ticks_after"`
+	EvalGOps     int      `json:"eval_goroutine_ops_after"`
+	OpsAfter     int      `json:"ops_after"`
+	Parked       int      `json:"parked"`
+	Leftover     int      `json:"leftover"`
+	HostBlocked  int      `json:"host_blocked"`
+	LeftStacks   string   `json:"left_stacks,omitempty"`
+	Skipped      bool     `json:"skipped,omitempty"` // not run: the worker slice had already produced many run-aways
+	Runaway      bool     `json:"runaway,omitempty"` // interpreted goroutines kept running after the cancellation; the worker is replaced
+	Slow         string   `json:"slow,omitempty"`    // latency-only remarks (never an alarm below the large bound)
+	Uses         []c10use `json:"uses,omitempty"`
+	HistEvents   []c10ev  `json:"hist_events,omitempty"` // history as executed (expired contexts resolved)
 }
 
 // ---------------------------------------------------------------- one run under the hook
@@ -99,6 +128,13 @@ type c09run struct {
 	ticksA    []int
 	lastMove  int64  // unix nano of the last hook call
 	parkFID   uint64 // run id of the frame of the first parked operation
+	gen0      uint64 // run id of the first operation of the run under test
+	gen0set   bool
+	evalG     uint64   // the goroutine of the evaluation itself (it executes the first operation)
+	ticksAG   []uint64 // goroutine of each tick of ticksA
+	posting   bool     // the host is evaluating something else on the interpreter (after the cancel)
+	nativeK   int      // > 0: park inside the nativeK-th call of host.Tick instead of in the hook
+	tickCalls int
 }
 
 var c09cur atomic.Pointer[c09run]
@@ -130,6 +166,14 @@ func c09hook(ip *interp.Interpreter, fid uint64) {
 		r.mu.Unlock()
 		return
 	}
+	if !r.gen0set {
+		r.gen0, r.gen0set, r.evalG = fid, true, g
+	}
+	if r.posting && fid != r.gen0 {
+		// an operation of the host's further evaluation (new run id): neither parked nor counted
+		r.mu.Unlock()
+		return
+	}
 	r.n++
 	atomic.StoreInt64(&r.lastMove, time.Now().UnixNano())
 	if r.released {
@@ -137,7 +181,7 @@ func c09hook(ip *interp.Interpreter, fid uint64) {
 		r.mu.Unlock()
 		return
 	}
-	if r.k > 0 && r.n >= r.k {
+	if r.nativeK == 0 && r.k > 0 && r.n >= r.k {
 		if len(r.parkedG) == 0 {
 			r.parkFID = fid
 		}
@@ -155,9 +199,21 @@ func c09hook(ip *interp.Interpreter, fid uint64) {
 
 func (r *c09run) tick(n int) {
 	r.mu.Lock()
+	if r.nativeK > 0 && !r.released {
+		r.tickCalls++
+		if r.tickCalls >= r.nativeK {
+			// the goroutine stays inside this native call until the release; the tick is recorded when the call returns
+			r.parkedG[c09gid()] = true
+			r.mu.Unlock()
+			r.parkOnce.Do(func() { close(r.parkedCh) })
+			<-r.releaseCh
+			r.mu.Lock()
+		}
+	}
 	if r.returned {
 		if len(r.ticksA) < 64 { // enough to show a run-away; the verdict needs no more
 			r.ticksA = append(r.ticksA, n)
+			r.ticksAG = append(r.ticksAG, c09gid())
 		}
 	} else {
 		r.ticksB = append(r.ticksB, n)
@@ -190,8 +246,16 @@ func c09HostTick(n int) {
 func c09HostTickRet(n int) int { c09HostTick(n); return n }
 func c09HostDelay()            { time.Sleep(3 * time.Millisecond) }
 
-func c09newInterp() *interp.Interpreter {
-	ip := interp.New(interp.Options{Stdout: &bytes.Buffer{}, Stderr: &bytes.Buffer{}})
+func c09newInterp(files map[string]string) *interp.Interpreter {
+	opt := interp.Options{Stdout: &bytes.Buffer{}, Stderr: &bytes.Buffer{}}
+	if len(files) > 0 {
+		mfs := fstest.MapFS{}
+		for name, src := range files {
+			mfs[name] = &fstest.MapFile{Data: []byte(src)}
+		}
+		opt.GoPath, opt.SourcecodeFilesystem = ".", mfs
+	}
+	ip := interp.New(opt)
 	ex := interp.Exports{}
 	for _, p := range []string{"sync/sync", "sync/atomic/atomic", "errors/errors"} {
 		if v, ok := stdlib.Symbols[p]; ok {
@@ -378,14 +442,17 @@ func c09runJob(j c09job) (res c09res) {
 		defer runtime.GOMAXPROCS(runtime.GOMAXPROCS(j.Procs))
 	}
 	before := c09ids()
-	ip := c09newInterp()
+	ip := c09newInterp(j.Files)
 	for _, p := range j.Pre {
-		if _, err := ip.EvalWithContext(context.Background(), p); err != nil {
+		if err := c09doStep(ip, p); err != nil {
 			res.Err = "pre: " + err.Error()
 			return
 		}
 	}
 	r := c09newRun(ip, j.K)
+	if j.ParkIn == "native" {
+		r.nativeK = j.K
+	}
 	c09tickTarget.Store(r)
 	c09cur.Store(r)
 	ctx, cancel := context.WithCancel(context.Background())
@@ -488,16 +555,19 @@ func c09runJob(j c09job) (res c09res) {
 		// the evaluation goroutine is either parked before its first operation or will never execute one
 		c09parkedOrGone(r, before, c09ExitBound)
 	}
-	if j.Post != "" {
-		g := c09gid()
+	if len(j.Posts) > 0 {
+		// the host goes on using the interpreter while goroutines of the cancelled run are still parked
+		// (before an operation or inside a native call)
 		r.mu.Lock()
-		r.pass[g] = true
+		r.posting = true
 		r.mu.Unlock()
-		if _, err := ip.Eval(j.Post); err != nil {
-			res.Err = "post: " + err.Error()
+		for _, p := range j.Posts {
+			if err := c09doStep(ip, p); err != nil {
+				res.Err = "next evaluation (" + p.How + "): " + err.Error()
+			}
 		}
 		r.mu.Lock()
-		delete(r.pass, g)
+		r.posting = false
 		r.mu.Unlock()
 	}
 	r.mu.Lock()
@@ -532,10 +602,21 @@ func c09runJob(j c09job) (res c09res) {
 	res.TotalOps = r.n
 	res.TicksBefore = append([]int{}, r.ticksB...)
 	res.TicksAfter = append([]int{}, r.ticksA...)
-	for _, c := range r.after {
+	for g, c := range r.after {
 		res.OpsAfter += c
 		if c > res.MaxOpsAfter {
 			res.MaxOpsAfter = c
+		}
+		if g == r.evalG {
+			res.EvalGOps = c
+		} else if c > res.OthersMaxOps {
+			res.OthersMaxOps = c
+		}
+	}
+	res.OthersTicks = []int{}
+	for i, n := range r.ticksA {
+		if r.ticksAG[i] != r.evalG {
+			res.OthersTicks = append(res.OthersTicks, n)
 		}
 	}
 	r.mu.Unlock()
@@ -687,7 +768,7 @@ func c09dispatch(jobs []c09job, workers int, dir string) (map[int]c09res, error)
 					// the worker died on the first job it did not answer (a panic in an interpreted goroutine kills the process)
 					j := rest[0]
 					mu.Lock()
-					res[j.ID] = c09res{ID: j.ID, Err: "worker died on this job: " + firstLine(fmt.Sprint(runErr)) + ": " + c09tail(errb.String(), 1500)}
+					res[j.ID] = c09res{ID: j.ID, Err: "worker died on this job: " + firstLine(fmt.Sprint(runErr)) + ": " + c09headTail(errb.String(), 700, 900)}
 					mu.Unlock()
 					rest = rest[1:]
 				}
@@ -697,6 +778,13 @@ func c09dispatch(jobs []c09job, workers int, dir string) (map[int]c09res, error)
 	}
 	wg.Wait()
 	return res, nil
+}
+
+func c09headTail(s string, h, t int) string {
+	if len(s) <= h+t {
+		return s
+	}
+	return s[:h] + " [...] " + s[len(s)-t:]
 }
 
 func c09tail(s string, n int) string {
@@ -714,13 +802,18 @@ type c09tmpl struct {
 	Region   string // "" = main stream, else the known-finding region this template aims at
 	Kind     string // job kind
 	Src      string
-	Pre      []string
-	Post     string
-	Threads  int    // conc: upper bound of interpreted goroutines
-	CoqF     string // single: function table
-	CoqScen  func(tb int) string
-	KMax     int  // cancellation points 1..KMax (0 = only the standstill point)
-	Stall    bool // add the standstill cancellation point (k = 0)
+	Pre      []c09step
+	Posts    []c09step
+	ParkIn   string
+	Files    map[string]string
+	KMin     int                 // first cancellation point (default 1)
+	Others   bool                // observe the goroutines other than the evaluation's own one
+	Threads  int                 // conc: upper bound of interpreted goroutines
+	CoqF     string              // single: function table
+	Park     *c09parkArgs        // single: the scenario (SPark ...) of Cancel/Cases.v
+	CoqScen  func(tb int) string // single: any other scenario
+	KMax     int                 // cancellation points 1..KMax (0 = only the standstill point)
+	Stall    bool                // add the standstill cancellation point (k = 0)
 	Infinite bool
 }
 
@@ -731,11 +824,70 @@ func c09hdrSrc(body string) string {
 	return "package main\n\nimport \"host\"\n\n"
 }
 
-func c09park(pre string, t0 int, phases string, blocked bool, post, order string) func(int) string {
-	return func(tb int) string {
-		return fmt.Sprintf("(SPark %s %d %s %s %s %s %d)", pre, t0, phases, coqBool(blocked), post, order, tb)
+// c09repl turns a one-file main package into REPL-style evaluations: imports, the declarations with main
+// renamed run, and the statement that starts it.
+func c09repl(src string) (pre []c09step, run string) {
+	pre = append(pre, c09step{"evalctx", "import \"host\""})
+	if strings.Contains(src, "\"sync\"") {
+		pre = append(pre, c09step{"evalctx", "import \"sync\""})
 	}
+	body := src
+	if i := strings.Index(body, "\nfunc "); i >= 0 {
+		j := strings.Index(body, "\ntype ")
+		if j >= 0 && j < i {
+			i = j
+		}
+		body = body[i+1:]
+	}
+	body = strings.Replace(body, "func main() {", "func run() {", 1)
+	pre = append(pre, c09step{"evalctx", body})
+	return pre, "run()"
 }
+
+type c09parkArgs struct {
+	Pre     string
+	T0      int
+	Phases  string
+	Blocked bool
+	Post    string
+	Order   string
+}
+
+func (a *c09parkArgs) scen(tb int) string {
+	return fmt.Sprintf("(SPark %s %d %s %s %s %s %d)", a.Pre, a.T0, a.Phases, coqBool(a.Blocked), a.Post, a.Order, tb)
+}
+
+// c09posts draws 1..3 further evaluations and renders them as actions of the model: every one of
+// them refreshes the root frame's run id (Execute; importSrc does it once more), an EvalWithContext
+// also installs a new cancellation channel. Their programs are empty (function 999 does not exist).
+func c09posts(r *rng, t0 int) (steps []c09step, post, order string) {
+	n := 1 + r.intn(3)
+	var acts, ord []string
+	next := t0 + 1
+	for i := 0; i < n; i++ {
+		switch r.intn(3) {
+		case 0:
+			steps = append(steps, c09step{"eval", "1+1"})
+			acts = append(acts, "AExecute [PRoot 999]")
+			ord = append(ord, fmt.Sprint(next))
+			next++
+		case 1:
+			steps = append(steps, c09step{"evalctx", "2+2"})
+			acts = append(acts, "ABegin", "AExecute [PRoot 999]")
+			ord = append(ord, fmt.Sprint(next))
+			next++
+		default:
+			steps = append(steps, c09step{"import", "pkgx"})
+			acts = append(acts, "AExecute [PRoot 999]", "AExecute [PRoot 999]")
+			ord = append(ord, fmt.Sprint(next), fmt.Sprint(next+1))
+			next += 2
+		}
+	}
+	ord = append(ord, fmt.Sprint(t0))
+	return steps, coqList(acts), coqList(ord)
+}
+
+var c09pkgx = map[string]string{"src/pkgx/x.go": "package pkgx\n\nvar X = mk()\n\nvar Y int\n\nfunc mk() int { return 41 }\n\nfunc init() { Y = 7 }\n"}
 
 func c09ticksBody(ids []int) (goSrc, coq string) {
 	var g, c []string
@@ -758,9 +910,9 @@ func c09templates(r *rng, thorough bool) []c09tmpl {
 	// ---- single-threaded, main stream
 	a, b := 1+r.intn(9), 11+r.intn(9)
 	ts = append(ts, c09tmpl{Name: "busy-loop", Class: "single", Kind: "park", KMax: kS, Infinite: true,
-		Src:     fmt.Sprintf("package main\n\nimport \"host\"\n\nfunc main() {\n\tfor {\n\t\thost.Tick(%d)\n\t}\n}\n", a),
-		CoqF:    fmt.Sprintf("[ []; [Nop; Tick %d; Jmp 0] ]", a),
-		CoqScen: c09park("[]", 0, mainOnly, false, "[]", "[0]")})
+		Src:  fmt.Sprintf("package main\n\nimport \"host\"\n\nfunc main() {\n\tfor {\n\t\thost.Tick(%d)\n\t}\n}\n", a),
+		CoqF: fmt.Sprintf("[ []; [Nop; Tick %d; Jmp 0] ]", a),
+		Park: &c09parkArgs{"[]", 0, mainOnly, false, "[]", "[0]"}})
 	depth := 2 + r.intn(3)
 	{
 		var fs []string
@@ -770,32 +922,32 @@ func c09templates(r *rng, thorough bool) []c09tmpl {
 			fs = append(fs, fmt.Sprintf("[Nop; Tick %d; Nop; Call %d; Nop; Tick %d; Ret]", n, 2+n-1, 100+n))
 		}
 		ts = append(ts, c09tmpl{Name: "recursion", Class: "single", Kind: "park", KMax: kS + 60, Infinite: true,
-			Src:     fmt.Sprintf("package main\n\nimport \"host\"\n\nfunc rec(n int) {\n\tif n == 0 {\n\t\treturn\n\t}\n\thost.Tick(n)\n\trec(n - 1)\n\thost.Tick(100 + n)\n}\n\nfunc main() {\n\tfor {\n\t\trec(%d)\n\t}\n}\n", depth),
-			CoqF:    "[ " + strings.Join(fs, "; ") + " ]",
-			CoqScen: c09park("[]", 0, mainOnly, false, "[]", "[0]")})
+			Src:  fmt.Sprintf("package main\n\nimport \"host\"\n\nfunc rec(n int) {\n\tif n == 0 {\n\t\treturn\n\t}\n\thost.Tick(n)\n\trec(n - 1)\n\thost.Tick(100 + n)\n}\n\nfunc main() {\n\tfor {\n\t\trec(%d)\n\t}\n}\n", depth),
+			CoqF: "[ " + strings.Join(fs, "; ") + " ]",
+			Park: &c09parkArgs{"[]", 0, mainOnly, false, "[]", "[0]"}})
 	}
 	ts = append(ts, c09tmpl{Name: "closure-loop", Class: "single", Kind: "park", KMax: kS, Infinite: true,
-		Src:     fmt.Sprintf("package main\n\nimport \"host\"\n\nfunc main() {\n\tn := 0\n\tf := func() {\n\t\tn++\n\t\thost.Tick(%d)\n\t}\n\tfor {\n\t\tf()\n\t\thost.Tick(%d)\n\t}\n}\n", a, b),
-		CoqF:    fmt.Sprintf("[ []; [Nop; MkClos 0 2; Nop; CallClos 0; Nop; Tick %d; Jmp 2]; [Nop; Tick %d; Ret] ]", b, a),
-		CoqScen: c09park("[]", 0, mainOnly, false, "[]", "[0]")})
+		Src:  fmt.Sprintf("package main\n\nimport \"host\"\n\nfunc main() {\n\tn := 0\n\tf := func() {\n\t\tn++\n\t\thost.Tick(%d)\n\t}\n\tfor {\n\t\tf()\n\t\thost.Tick(%d)\n\t}\n}\n", a, b),
+		CoqF: fmt.Sprintf("[ []; [Nop; MkClos 0 2; Nop; CallClos 0; Nop; Tick %d; Jmp 2]; [Nop; Tick %d; Ret] ]", b, a),
+		Park: &c09parkArgs{"[]", 0, mainOnly, false, "[]", "[0]"}})
 	ts = append(ts, c09tmpl{Name: "method-iface", Class: "single", Kind: "park", KMax: kS, Infinite: true,
-		Src:     fmt.Sprintf("package main\n\nimport \"host\"\n\ntype T struct{ n int }\n\nfunc (t *T) M() {\n\tt.n++\n\thost.Tick(%d)\n}\n\ntype I interface{ M() }\n\nfunc main() {\n\tvar i I = &T{}\n\tfor {\n\t\ti.M()\n\t\thost.Tick(%d)\n\t}\n}\n", a, b),
-		CoqF:    fmt.Sprintf("[ []; [Nop; Call 2; Nop; Tick %d; Jmp 0]; [Nop; Tick %d; Ret] ]", b, a),
-		CoqScen: c09park("[]", 0, mainOnly, false, "[]", "[0]")})
+		Src:  fmt.Sprintf("package main\n\nimport \"host\"\n\ntype T struct{ n int }\n\nfunc (t *T) M() {\n\tt.n++\n\thost.Tick(%d)\n}\n\ntype I interface{ M() }\n\nfunc main() {\n\tvar i I = &T{}\n\tfor {\n\t\ti.M()\n\t\thost.Tick(%d)\n\t}\n}\n", a, b),
+		CoqF: fmt.Sprintf("[ []; [Nop; Call 2; Nop; Tick %d; Jmp 0]; [Nop; Tick %d; Ret] ]", b, a),
+		Park: &c09parkArgs{"[]", 0, mainOnly, false, "[]", "[0]"}})
 	ts = append(ts, c09tmpl{Name: "closure-factory", Class: "single", Kind: "park", KMax: kS, Infinite: true,
-		Src:     fmt.Sprintf("package main\n\nimport \"host\"\n\nfunc mk(id int) func() {\n\treturn func() { host.Tick(id) }\n}\n\nfunc main() {\n\tf, g := mk(%d), mk(%d)\n\tfor {\n\t\tf()\n\t\tg()\n\t}\n}\n", a, b),
-		CoqF:    fmt.Sprintf("[ []; [Nop; Call 2; Nop; Call 3; Nop; CallClos 0; Nop; CallClos 1; Jmp 4]; [Nop; MkClos 0 4; Ret]; [Nop; MkClos 1 5; Ret]; [Nop; Tick %d; Ret]; [Nop; Tick %d; Ret] ]", a, b),
-		CoqScen: c09park("[]", 0, mainOnly, false, "[]", "[0]")})
+		Src:  fmt.Sprintf("package main\n\nimport \"host\"\n\nfunc mk(id int) func() {\n\treturn func() { host.Tick(id) }\n}\n\nfunc main() {\n\tf, g := mk(%d), mk(%d)\n\tfor {\n\t\tf()\n\t\tg()\n\t}\n}\n", a, b),
+		CoqF: fmt.Sprintf("[ []; [Nop; Call 2; Nop; Call 3; Nop; CallClos 0; Nop; CallClos 1; Jmp 4]; [Nop; MkClos 0 4; Ret]; [Nop; MkClos 1 5; Ret]; [Nop; Tick %d; Ret]; [Nop; Tick %d; Ret] ]", a, b),
+		Park: &c09parkArgs{"[]", 0, mainOnly, false, "[]", "[0]"}})
 	ts = append(ts, c09tmpl{Name: "repl-statements", Class: "single", Kind: "park", KMax: 14,
-		Pre:     []string{"import \"host\""},
-		Src:     "host.Tick(1); host.Tick(2); host.Tick(3); host.Tick(4); host.Tick(5); host.Tick(6)\n",
-		CoqF:    "[ [Nop; Tick 1; Nop; Tick 2; Nop; Tick 3; Nop; Tick 4; Nop; Tick 5; Nop; Tick 6]; [Nop]; [] ]",
-		CoqScen: c09park("(session [PRoot 2] ++ alone 0 4)", 1, "[PRoot 0]", false, "[]", "[1]")})
+		Pre:  []c09step{{"evalctx", "import \"host\""}},
+		Src:  "host.Tick(1); host.Tick(2); host.Tick(3); host.Tick(4); host.Tick(5); host.Tick(6)\n",
+		CoqF: "[ [Nop; Tick 1; Nop; Tick 2; Nop; Tick 3; Nop; Tick 4; Nop; Tick 5; Nop; Tick 6]; [Nop]; [] ]",
+		Park: &c09parkArgs{"(session [PRoot 2] ++ alone 0 4)", 1, "[PRoot 0]", false, "[]", "[1]"}})
 	ts = append(ts, c09tmpl{Name: "blocked-named-second-eval", Class: "single", Kind: "stale", Stall: true,
-		Pre:     []string{"var ch = make(chan int)\nfunc blk() int { return <-ch }\n"},
-		Src:     "blk()",
-		CoqF:    "[ [Nop]; [Nop; Block true; Ret]; [Nop; Call 1] ]",
-		CoqScen: c09park("(session [PRoot 0] ++ alone 0 8)", 1, "[PRoot 2]", true, "[]", "[1]")})
+		Pre:  []c09step{{"evalctx", "var ch = make(chan int)\nfunc blk() int { return <-ch }\n"}},
+		Src:  "blk()",
+		CoqF: "[ [Nop]; [Nop; Block true; Ret]; [Nop; Call 1] ]",
+		Park: &c09parkArgs{"(session [PRoot 0] ++ alone 0 8)", 1, "[PRoot 2]", true, "[]", "[1]"}})
 
 	// ---- single-threaded: the witnesses of the repaired init-list defect (fix: interp.run takes the root frame's
 	// run id), kept in the main stream as corpus cases: cancel inside init(), inside package variable initialisation
@@ -811,34 +963,34 @@ func c09templates(r *rng, thorough bool) []c09tmpl {
 		g2, c2 := c09ticksBody(i2)
 		g3, c3 := c09ticksBody(i3)
 		ts = append(ts, c09tmpl{Name: "init-list", Class: "single", Kind: "park", KMax: 24,
-			Src:     fmt.Sprintf("package main\n\nimport \"host\"\n\nfunc init() {\n\tfor {\n\t\thost.Tick(1)\n\t}\n}\n\nfunc init() { %s }\n\nfunc main() { %s }\n", g2, g3),
-			CoqF:    fmt.Sprintf("[ []; [Nop; Tick 1; Jmp 0]; [%s]; [%s] ]", c2, c3),
-			CoqScen: c09park("[]", 0, "[PRoot 0; PFun 1; PFun 2; PFun 3]", false, "[]", "[0]")})
+			Src:  fmt.Sprintf("package main\n\nimport \"host\"\n\nfunc init() {\n\tfor {\n\t\thost.Tick(1)\n\t}\n}\n\nfunc init() { %s }\n\nfunc main() { %s }\n", g2, g3),
+			CoqF: fmt.Sprintf("[ []; [Nop; Tick 1; Jmp 0]; [%s]; [%s] ]", c2, c3),
+			Park: &c09parkArgs{"[]", 0, "[PRoot 0; PFun 1; PFun 2; PFun 3]", false, "[]", "[0]"}})
 		ts = append(ts, c09tmpl{Name: "init-then-main", Class: "single", Kind: "park", KMax: 16,
-			Src:     fmt.Sprintf("package main\n\nimport \"host\"\n\nfunc init() {\n\tfor {\n\t\thost.Tick(1)\n\t}\n}\n\nfunc main() { %s }\n", g3),
-			CoqF:    fmt.Sprintf("[ []; [Nop; Tick 1; Jmp 0]; [%s] ]", c3),
-			CoqScen: c09park("[]", 0, "[PRoot 0; PFun 1; PFun 2]", false, "[]", "[0]")})
+			Src:  fmt.Sprintf("package main\n\nimport \"host\"\n\nfunc init() {\n\tfor {\n\t\thost.Tick(1)\n\t}\n}\n\nfunc main() { %s }\n", g3),
+			CoqF: fmt.Sprintf("[ []; [Nop; Tick 1; Jmp 0]; [%s] ]", c3),
+			Park: &c09parkArgs{"[]", 0, "[PRoot 0; PFun 1; PFun 2]", false, "[]", "[0]"}})
 		ts = append(ts, c09tmpl{Name: "package-vars", Class: "single", Kind: "park", KMax: 4,
-			Src:     fmt.Sprintf("package main\n\nimport \"host\"\n\nvar a = host.TickRet(5)\nvar b = host.TickRet(6)\n\nfunc main() { %s }\n", g3),
-			CoqF:    fmt.Sprintf("[ []; [Nop; Tick 5; Nop; Nop; Tick 6; Nop]; [%s] ]", c3),
-			CoqScen: c09park("[]", 0, "[PRoot 0; PRoot 1; PFun 2]", false, "[]", "[0]")})
+			Src:  fmt.Sprintf("package main\n\nimport \"host\"\n\nvar a = host.TickRet(5)\nvar b = host.TickRet(6)\n\nfunc main() { %s }\n", g3),
+			CoqF: fmt.Sprintf("[ []; [Nop; Tick 5; Nop; Nop; Tick 6; Nop]; [%s] ]", c3),
+			Park: &c09parkArgs{"[]", 0, "[PRoot 0; PRoot 1; PFun 2]", false, "[]", "[0]"}})
 	}
 	// ---- single-threaded, known-finding regions
 	ts = append(ts, c09tmpl{Name: "repl-next-eval", Class: "single", Region: "root-revival", Kind: "revival", KMax: 12,
-		Pre:     []string{"import \"host\""},
-		Src:     "host.Tick(1); host.Tick(2); host.Tick(3); host.Tick(4); host.Tick(5); host.Tick(6)\n",
-		Post:    "1+1",
-		CoqF:    "[ [Nop; Tick 1; Nop; Tick 2; Nop; Tick 3; Nop; Tick 4; Nop; Tick 5; Nop; Tick 6]; [Nop]; [] ]",
-		CoqScen: c09park("(session [PRoot 2] ++ alone 0 4)", 1, "[PRoot 0]", false, "[AExecute [PRoot 1]]", "[2; 1]")})
+		Pre:   []c09step{{"evalctx", "import \"host\""}},
+		Src:   "host.Tick(1); host.Tick(2); host.Tick(3); host.Tick(4); host.Tick(5); host.Tick(6)\n",
+		Posts: []c09step{{"eval", "1+1"}},
+		CoqF:  "[ [Nop; Tick 1; Nop; Tick 2; Nop; Tick 3; Nop; Tick 4; Nop; Tick 5; Nop; Tick 6]; [Nop]; [] ]",
+		Park:  &c09parkArgs{"(session [PRoot 2] ++ alone 0 4)", 1, "[PRoot 0]", false, "[AExecute [PRoot 1]]", "[2; 1]"}})
 	ts = append(ts, c09tmpl{Name: "expired-context", Class: "single", Region: "expired", Kind: "expired", KMax: 1,
 		Src:     "package main\n\nimport \"host\"\n\nfunc main() { host.Tick(1); host.Tick(2); host.Tick(3) }\n",
 		CoqF:    "[ []; [Nop; Tick 1; Nop; Tick 2; Nop; Tick 3] ]",
 		CoqScen: func(int) string { return "(SExpired [PRoot 0; PFun 1])" }})
 	ts = append(ts, c09tmpl{Name: "blocked-literal-second-eval", Class: "single", Region: "stale-done", Kind: "stale", Stall: true,
-		Pre:     []string{"var ch = make(chan int)\nvar blk = func() int { return <-ch }\n"},
-		Src:     "blk()",
-		CoqF:    "[ [Nop; MkClos 0 1]; [Nop; Block true; Ret]; [Nop; CallClos 0] ]",
-		CoqScen: c09park("(session [PRoot 0] ++ alone 0 8)", 1, "[PRoot 2]", true, "[]", "[1]")})
+		Pre:  []c09step{{"evalctx", "var ch = make(chan int)\nvar blk = func() int { return <-ch }\n"}},
+		Src:  "blk()",
+		CoqF: "[ [Nop; MkClos 0 1]; [Nop; Block true; Ret]; [Nop; CallClos 0] ]",
+		Park: &c09parkArgs{"(session [PRoot 0] ++ alone 0 8)", 1, "[PRoot 2]", true, "[]", "[1]"}})
 
 	// ---- concurrent, main stream
 	conc := func(name string, threads, kmax int, infinite bool, body string) {
@@ -1065,6 +1217,109 @@ func main() {
 	}
 }
 `)
+
+	// ---- the host goes on using the interpreter after the cancel, BEFORE the goroutines of the cancelled run
+	// are released: 1..3 further evaluations (plain Eval, EvalWithContext, import of a source package), with the
+	// goroutines parked before an operation or inside a native call (host.Tick). The programs are loaded REPL
+	// style (declarations first, then the statement run()), because any later Eval runs a package's main again.
+	// Frames keep their generation, so no goroutine may come back to life: for the goroutines started by the
+	// program that is the main stream. The evaluation's own goroutine has the root frame at the bottom of its
+	// stack; the next Execute refreshes that frame and the goroutine executes the (two) operations that end
+	// the statement run() after the call has returned: region "root-revival", predicted exactly by Y
+	// (single-goroutine programs), left out of the observation otherwise.
+	kN := 40
+	if thorough {
+		kN = 120
+	}
+	base := len(ts)
+	for i := 0; i < base; i++ {
+		t := ts[i]
+		if t.Kind != "park" || t.KMax == 0 || t.Region != "" || len(t.Posts) > 0 || len(t.Pre) > 0 {
+			continue
+		}
+		if t.Park != nil && t.Park.Phases != mainOnly {
+			continue
+		}
+		v := t
+		v.Name = t.Name + "+next-evals"
+		if v.KMax > kN {
+			v.KMax = kN
+		}
+		v.Stall = false
+		v.Files = c09pkgx
+		v.Pre, v.Src = c09repl(t.Src)
+		var post, order string
+		v.Posts, post, order = c09posts(r, 0)
+		if r.bool() {
+			v.ParkIn = "native"
+		} else {
+			v.KMin = 2 // operation 1 is the call run() itself, in the root frame
+		}
+		if t.Park != nil {
+			if !strings.HasPrefix(t.CoqF, "[ []; ") {
+				continue
+			}
+			v.CoqF = "[ [Call 1; Nop; Nop]; " + strings.TrimPrefix(t.CoqF, "[ []; ")
+			v.Park = &c09parkArgs{"[]", 0, "[PRoot 0]", false, post, order}
+			v.Region = "root-revival"
+		} else {
+			v.Others = true
+		}
+		ts = append(ts, v)
+	}
+
+	// ---- sessions: the blocking code is loaded by {Eval, EvalPath, import, EvalWithContext} before or after the
+	// interpreter's first *WithContext call, then run under a context and cancelled while blocked.
+	// send / receive / two-value receive read interp.cancelChan when their code is GENERATED: loaded without a
+	// context before the first *WithContext call they are not cancellable (region "nocancel-gen"); range and
+	// select always are.
+	constr := []struct{ name, coq, body string }{
+		{"send", "KSend", "ch <- 1"},
+		{"recv", "KRecv", "v := <-ch\n\t_ = v"},
+		{"recv2", "KRecv2", "v, ok := <-ch\n\t_, _ = v, ok"},
+		{"range", "KRange", "for v := range ch {\n\t\t_ = v\n\t}"},
+		{"select", "KSelect", "select {\n\tcase v := <-ch:\n\t\t_ = v\n\tcase ch2 <- 1:\n\t}"},
+	}
+	loaders := []struct{ name, coq string }{{"eval", "LEval"}, {"evalctx", "LEvalCtx"}, {"evalpath", "LEvalPath"}, {"import", "LImport"}}
+	for _, c := range constr {
+		decl := "var ch = make(chan int)\n\nvar ch2 = make(chan int)\n\n"
+		files := map[string]string{
+			"src/pkgb/b.go":    "package pkgb\n\n" + decl + "func Blk() int {\n\t" + c.body + "\n\treturn 1\n}\n",
+			"src/files/blk.go": "package main\n\n" + decl + "func blk() int {\n\t" + c.body + "\n\treturn 1\n}\n",
+		}
+		repl := decl + "func blk() int {\n\t" + c.body + "\n\treturn 1\n}\n"
+		for _, ld := range loaders {
+			for _, first := range []bool{false, true} {
+				var pre []c09step
+				if first {
+					pre = append(pre, c09step{"evalctx", "1+1"})
+				}
+				src := "blk()"
+				switch ld.name {
+				case "eval":
+					pre = append(pre, c09step{"eval", repl})
+				case "evalctx":
+					pre = append(pre, c09step{"evalctx", repl})
+				case "evalpath":
+					pre = append(pre, c09step{"evalpath", "src/files/blk.go"})
+				case "import":
+					pre = append(pre, c09step{"import", "pkgb"})
+					src = "pkgb.Blk()"
+				}
+				region := ""
+				if !first && ld.name != "evalctx" && (c.name == "send" || c.name == "recv" || c.name == "recv2") {
+					region = "nocancel-gen"
+				}
+				when := "before-first-ctx"
+				if first {
+					when = "after-first-ctx"
+				}
+				scen := fmt.Sprintf("(SSess %s %s %s)", coqBool(first), ld.coq, c.coq)
+				ts = append(ts, c09tmpl{Name: "session-" + c.name + "-" + ld.name + "-" + when, Class: "single", Region: region, Kind: "stale", Stall: true,
+					Pre: pre, Src: src, Files: files, CoqF: "[]", CoqScen: func(int) string { return scen }})
+			}
+		}
+	}
 	return ts
 }
 
@@ -1105,13 +1360,17 @@ func runC09(args []string) error {
 	id := 0
 	add := func(t *c09tmpl, k, procs int) {
 		id++
-		jobs = append(jobs, c09job{ID: id, Kind: t.Kind, Src: t.Src, Pre: t.Pre, Post: t.Post, K: k, Procs: procs, Single: t.Class == "single"})
+		jobs = append(jobs, c09job{ID: id, Kind: t.Kind, Src: t.Src, Pre: t.Pre, Posts: t.Posts, ParkIn: t.ParkIn, Files: t.Files, K: k, Procs: procs, Single: t.Class == "single"})
 		metas[id] = meta{t, k, procs}
 	}
 	procChoices := []int{0, 0, 1, 2, 4}
 	for ti := range tmpls {
 		t := &tmpls[ti]
-		for k := 1; k <= t.KMax; k++ {
+		kmin := 1
+		if t.KMin > 0 {
+			kmin = t.KMin
+		}
+		for k := kmin; k <= t.KMax; k++ {
 			procs := 0
 			if t.Class == "conc" {
 				procs = procChoices[r.intn(len(procChoices))]
@@ -1124,7 +1383,7 @@ func runC09(args []string) error {
 		if thorough && t.Class == "conc" && t.KMax > 0 {
 			// a second pass over a seeded subset with another GOMAXPROCS
 			for n := 0; n < t.KMax/2; n++ {
-				add(t, 1+r.intn(t.KMax), procChoices[1+r.intn(len(procChoices)-1)])
+				add(t, kmin+r.intn(t.KMax-kmin+1), procChoices[1+r.intn(len(procChoices)-1)])
 			}
 		}
 	}
@@ -1178,8 +1437,11 @@ func runC09(args []string) error {
 		if len(t.Pre) > 0 {
 			in["earlier_evaluations"] = t.Pre
 		}
-		if t.Post != "" {
-			in["next_eval"] = t.Post
+		if len(t.Posts) > 0 {
+			in["next_evaluations_before_release"] = t.Posts
+		}
+		if t.ParkIn != "" {
+			in["parked"] = "inside the k-th call of the host function host.Tick"
 		}
 		if res.Skipped {
 			sm.count("skipped-after-repeated-run-aways")
@@ -1189,12 +1451,23 @@ func runC09(args []string) error {
 		sm.count("template:" + t.Name)
 		if res.Err != "" {
 			reg := ""
+			if len(t.Posts) > 0 && strings.Contains(res.Err, "concurrent map") {
+				// the abandoned Execute of the cancelled evaluation reads interp.scopes without the lock while the
+				// host's next evaluation (an import) writes it: the Go run-time kills the process (timing dependent)
+				reg = "next-eval-race"
+			}
 			sm.HarnessViolations = append(sm.HarnessViolations, refMismatch{ID: i, Region: reg, Input: in, Impl: res.Err, Ref: "the run completes", Note: "the worker process was killed by a panic in an interpreted goroutine"})
 			sm.count("host-process-killed:" + reg)
 			continue
 		}
 		if res.Completed {
 			sm.count("completed-before-k")
+			continue
+		}
+		if res.Stalled && m.k > 0 && t.Class == "single" && len(t.Posts) > 0 {
+			// the machine was so busy that nothing moved for a while and the job was cancelled without a parked
+			// goroutine: the further evaluations then came after the goroutine had already stopped; not the scenario
+			sm.count("not-parked(standstill-under-load)")
 			continue
 		}
 		sm.CaseIndex[fmt.Sprint(i)] = in
@@ -1216,19 +1489,30 @@ func runC09(args []string) error {
 			maxExit = res.ExitMs
 		}
 		many := res.MaxOpsAfter > 1
-		obs := fmt.Sprintf("(mkObs %s %s %s %d)", coqBool(res.Ret), coqBool(many), c09natList(res.TicksAfter), res.Leftover)
+		ticksAfter := res.TicksAfter
+		if t.Others {
+			// the goroutines started by the program; the evaluation's own goroutine ends its top-level statement
+			// in the refreshed root frame (region root-revival, observed exactly in the single-goroutine variants)
+			many, ticksAfter = res.OthersMaxOps > 1, res.OthersTicks
+		}
+		obs := fmt.Sprintf("(mkObs %s %s %s %d)", coqBool(res.Ret), coqBool(many), c09natList(ticksAfter), res.Leftover)
 		var scen, ftab string
 		nthreads := 1
 		switch {
 		case t.Class == "conc":
 			scen, ftab, nthreads = fmt.Sprintf("(SConc %d)", t.Threads), "[]", t.Threads
 		default:
-			scen, ftab = t.CoqScen(len(res.TicksBefore)), t.CoqF
+			if t.Park != nil {
+				scen = t.Park.scen(len(res.TicksBefore))
+			} else {
+				scen = t.CoqScen(len(res.TicksBefore))
+			}
+			ftab = t.CoqF
 			if t.Kind == "expired" {
 				nthreads = 0
 			}
 		}
-		refOK := res.Ret && !many && res.Leftover == 0 && len(res.TicksAfter) <= nthreads
+		refOK := res.Ret && !many && res.Leftover == 0 && len(ticksAfter) <= nthreads
 		cases = append(cases, fmt.Sprintf("(%d%%N, %s, %s, %s, %s)", i, ftab, scen, obs, coqBool(refOK)))
 		sm.ImplComparisons++
 		sm.RefComparisons++
@@ -1236,7 +1520,7 @@ func runC09(args []string) error {
 			distinct.add(t.Name, fmt.Sprint(m.k), fmt.Sprint(m.pr), t.Src)
 		}
 		implView := map[string]any{"returned_ctx_error": res.Ret, "max_ops_after_release_per_goroutine": res.MaxOpsAfter,
-			"ticks_before": len(res.TicksBefore), "ticks_after": res.TicksAfter, "goroutines_left": res.Leftover, "left_in_host_call": res.HostBlocked,
+			"ticks_before": len(res.TicksBefore), "ticks_after": res.TicksAfter, "others_max_ops_after": res.OthersMaxOps, "others_ticks_after": res.OthersTicks, "goroutines_left": res.Leftover, "left_in_host_call": res.HostBlocked,
 			"latency_ms": res.LatencyMs, "ret_err": res.RetErr, "left_stacks": res.LeftStacks}
 		if len(sm.Samples) < 6 && (m.k == 7 || res.Stalled) {
 			sm.Samples = append(sm.Samples, map[string]any{"input": in, "observed": implView})
